@@ -11,7 +11,7 @@ REPORT = "/tmp/mut/verify_report%s.json" % ("" if ROUND == 1 else str(ROUND))
 ENV = dict(os.environ, CARGO_NET_OFFLINE="true")
 
 def sh(cmd, cwd=WT, timeout=1200):
-    p = subprocess.run(cmd, cwd=cwd, shell=True, capture_output=True, text=True, env=ENV, timeout=timeout)
+    p = subprocess.run(cmd, cwd=cwd, shell=True, executable="/bin/bash", capture_output=True, text=True, env=ENV, timeout=timeout)
     return p.returncode, p.stdout + p.stderr
 
 def clean():
@@ -47,7 +47,7 @@ def run_demo(files):
             for y in files:
                 if y.endswith(".yaml"):
                     shutil.copy(y, os.path.join(WT, os.path.basename(y)))
-            rc, out = sh("bash %s 2>&1 | tail -25" % os.path.basename(f))
+            rc, out = sh("set -o pipefail; bash %s 2>&1 | tail -25" % os.path.basename(f))
             log += out[-1500:]
             ok = ok and rc == 0
     return ran, ok, log
